@@ -97,7 +97,7 @@ def run(ctx: Ctx) -> None:
         ctx.model_drift(f"real control paths that Krylov.tla does not have: {sorted(seen_paths - model_core)[:4]}")
 
     # (3a) stratified random exploration
-    n = ctx.pick(2400, 36000)
+    n = ctx.pick(1600, 30000)
     rng = np.random.default_rng([ctx.seed, 7])
     specs = [kc.gen_exp_spec(rng, ctx.seed * 1_000_003 + i) for i in range(n)]
     # cheap instances first / expensive ones spread: sort chunks round-robin by dimension
